@@ -122,6 +122,29 @@ def task_geometry(seed):
         else:
             out.append(ob(f"{PROP}/{cls}.move_to/single-path/{name}", "refuted" if p and p[0].exc else "undecided", engine="symrun",
                           reason=repr(p[0].exc) if p else "", cex=dict(cex0, op="move_to") if p and p[0].exc else None))
+        # ---- move_to after a write through a live view: the centre must be that of the CURRENT coordinates
+        if cls == "Molecule":
+            def run_view(c):
+                setpos()
+                _ = obj.geometric_center                 # a read in between must not matter
+                a0 = obj[0]
+                a0.position = S.vec("w")                   # live view (statement: assigning through it changes the molecule)
+                t = S.vec("t")
+                obj.move_to(t)
+                return S.terms(obj.geometric_center), S.terms(obj.atoms_positions)
+            p = S.explore(run_view)
+            if len(p) == 1 and p[0].exc is None:
+                cen, o_ = p[0].result
+                Wv = [z3.Real(f"w_{k}") for k in range(3)]
+                out.append(discharge(f"{PROP}/{cls}.move_to/ensures.centre_at_requested_point_after_a_view_write/{name}", p[0].hyps(),
+                                     z3.And(*[cen[k] == T[k] for k in range(3)]), backends=("z3",), cex_builder=lambda m: dict(cex0, op="view_move_to")))
+                # the first atom carries the view-written position, translated like all others
+                goal = z3.And(*[o_[k] - Wv[k] == o_[3 * (n - 1) + k] - X[n - 1][k] for k in range(3)]) if n > 1 else z3.BoolVal(True)
+                out.append(discharge(f"{PROP}/{cls}.__getitem__/ensures.view_write_through_then_rigid_translation/{name}", p[0].hyps(), goal,
+                                     backends=("z3",), cex_builder=lambda m: dict(cex0, op="view_move_to")))
+            else:
+                out.append(ob(f"{PROP}/{cls}.move_to/view-write/single-path/{name}", "refuted" if p and p[0].exc else "undecided", engine="symrun",
+                              reason=repr(p[0].exc) if p else "", cex=dict(cex0, op="view_move_to") if p and p[0].exc else None))
         # ---- rotate
         def run_rot(c):
             setpos()
@@ -205,6 +228,16 @@ def replay(prop, cex):
                     d = rng.normal(size=3)
                     obj.move(d)
                     bad = not np.allclose(obj.atoms_positions, X + d, atol=1e-9)
+                elif op == "view_move_to":
+                    _ = obj.geometric_center
+                    w = rng.normal(size=3)
+                    a0 = obj[0]
+                    a0.position = w
+                    t = rng.normal(size=3)
+                    obj.move_to(t)
+                    Xn = X.copy()
+                    Xn[0] = w
+                    bad = not np.allclose(obj.atoms_positions.mean(axis=0), t, atol=1e-9) or not np.allclose(obj.atoms_positions - Xn, (obj.atoms_positions - Xn)[0], atol=1e-9)
                 elif op == "move_to":
                     t = rng.normal(size=3)
                     obj.move_to(t)
